@@ -597,6 +597,43 @@ def c18_scenarios(tier, seed):
                 ts.add(rng.randrange(a, b + 1))
             out.append({"id": "c18-wide-%s-%d-%d" % (kind, a, b), "mode": "wide", "gen": g(kind + "Range", min=str(a), max=str(b)),
                         "targets": [str(t) for t in sorted(ts)], "fallback": 20000 if tier == "quick" else 200000})
+    # (2b) float ranges of a few adjacent values (within a binade, across a binade boundary, subnormal, huge, negative): every value can be drawn
+    import struct
+
+    def f64_step(x, n):
+        b = struct.unpack("<q", struct.pack("<d", x))[0]
+        return struct.unpack("<d", struct.pack("<q", b + n))[0]
+
+    def f32_step(x, n):
+        b = struct.unpack("<i", struct.pack("<f", x))[0]
+        return struct.unpack("<f", struct.pack("<i", b + n))[0]
+
+    def fbits(x):
+        return "bits:0x%016x" % struct.unpack("<Q", struct.pack("<d", x))[0]
+    bases = [1.0, 1.5, 1.75, 100.0, 3.0e10, 1e-300, 1e300, 0.1, 5e-324, 2.0 ** -1022, 123456.789]
+    counts = [2, 3, 8, 16, 33, 64]
+    nfl = 0
+    for base in bases if tier == "thorough" else bases[:7]:
+        for n in counts if tier == "thorough" else rng.sample(counts, 3):
+            for neg in (False, True):
+                for back in ((0,) if tier == "quick" else (0, n // 2)):      # start `back` values below the base: ranges across a power of two
+                    if base in (5e-324,) and back:
+                        continue
+                    if tier == "quick" and neg and nfl % 3:
+                        nfl += 1
+                        continue
+                    nfl += 1
+                    lo = f64_step(base, -back)
+                    hi = f64_step(lo, n - 1)
+                    a, b = (fbits(-hi), fbits(-lo)) if neg else (fbits(lo), fbits(hi))
+                    out.append({"id": "c18-floats64-%g-%d-%s-%d" % (base, n, "neg" if neg else "pos", back), "mode": "floats",
+                                "gen": g("Float64Range", min=a, max=b), "fallback": 60000 if tier == "quick" else 400000})
+    for base in [1.0, 1.5, 1000.0, 1e-30, 3e38 / 2] if tier == "thorough" else [1.0, 1.5, 1000.0]:
+        for n in counts if tier == "thorough" else rng.sample(counts, 2):
+            lo = f32_step(base, 0)
+            hi = f32_step(lo, n - 1)
+            out.append({"id": "c18-floats32-%g-%d" % (base, n), "mode": "floats", "gen": g("Float32Range", min="%.17g" % lo, max="%.17g" % hi),
+                        "fallback": 60000 if tier == "quick" else 400000})
     # (3) edges within a few thousand draws
     for i in range(60 if tier == "quick" else 1500):
         gen = int_gen(rng) if i % 3 else float_gen(rng)
